@@ -6,6 +6,7 @@ import (
 	"sync"
 
 	"github.com/cloudwego/eino/compose"
+	"github.com/cloudwego/eino/schema"
 )
 
 // RunRec is the per-run record carried in the context: execution log, branch script, hooks.
@@ -143,12 +144,31 @@ func LambdaBody(ctx context.Context, path string, key string, in Val) (Val, erro
 	return out, nil
 }
 
-func mkBranch(srcPath string, idx int, b Branch) *compose.GraphBranch {
+func mkBranch(srcPath string, idx int, b Branch, stream bool) *compose.GraphBranch {
 	ends := map[string]bool{}
 	for _, t := range b.Targets {
 		ends[t] = true
 	}
 	bc := b
+	if stream {
+		// a stream condition that reads only a prefix (one chunk) of its input and closes it
+		if b.Multi {
+			return compose.NewStreamGraphMultiBranch(func(ctx context.Context, in *schema.StreamReader[Val]) (map[string]bool, error) {
+				_, _ = in.Recv()
+				in.Close()
+				sel := map[string]bool{}
+				for _, t := range RunOf(ctx).answer(srcPath, idx, &bc) {
+					sel[t] = true
+				}
+				return sel, nil
+			}, ends)
+		}
+		return compose.NewStreamGraphBranch(func(ctx context.Context, in *schema.StreamReader[Val]) (string, error) {
+			_, _ = in.Recv()
+			in.Close()
+			return RunOf(ctx).answer(srcPath, idx, &bc)[0], nil
+		}, ends)
+	}
 	if b.Multi {
 		return compose.NewGraphMultiBranch(func(ctx context.Context, in Val) (map[string]bool, error) {
 			sel := map[string]bool{}
@@ -242,7 +262,7 @@ func BuildAny(p *Prog, path string, bo *BuildOpts) (compose.AnyGraph, error) {
 		}
 		idx := map[string]int{}
 		for _, b := range p.Branches {
-			wf.AddBranch(b.From, mkBranch(join(path, b.From), idx[b.From], b))
+			wf.AddBranch(b.From, mkBranch(join(path, b.From), idx[b.From], b, bo.StreamBranch))
 			idx[b.From]++
 		}
 		return wf, nil
@@ -274,7 +294,7 @@ func BuildAny(p *Prog, path string, bo *BuildOpts) (compose.AnyGraph, error) {
 	}
 	idx := map[string]int{}
 	for _, b := range p.Branches {
-		if err := g.AddBranch(b.From, mkBranch(join(path, b.From), idx[b.From], b)); err != nil {
+		if err := g.AddBranch(b.From, mkBranch(join(path, b.From), idx[b.From], b, bo.StreamBranch)); err != nil {
 			return nil, err
 		}
 		idx[b.From]++
